@@ -16,11 +16,13 @@ def run(args, rep):
     rng = random.Random(args.seed)
     _cli.model(rep, args.tier)
     cfgs, total = _cli.configs(args.tier, rng)
+    cfgs += [x for x in _cli.extra_configs() if x[0].startswith('p-')]
     obs, verdicts = _cli.run_and_judge(rep, cfgs, 'c15:', args.seed, 'C15')
     rep.exhaustive = False
     rep.rule = ('configurations = initial states of Cli.tla exported by TLC (files x reach x class x shape x mode x force); every '
                 '2-file configuration and a seeded sample of the 3-file ones is materialised as a real tree (suffix and placement '
                 'spellings vary with the seed, including a symlinked directory) and run through python_minifier.__main__.main(); '
+                'plus path-argument spellings outside the enumeration: --output naming the source itself (directly / through a symlink) and targets reached twice; '
                 'non-trivial = distinct configurations in which something was written or the run failed')
     rep.extra.update({'configurations_enumerated_by_tlc': total, 'configurations_run': len(cfgs),
                       'checker_cmd': 'tlc Cli.tla (MC_Cli.cfg / MC_Cli4.cfg); tlc Trace_Cli.tla over ndjson run records'})
